@@ -102,7 +102,7 @@ theorem C18_compression_error_witness (c : Conn) (rest : List DecRes) (block : B
 /-- non-vacuity: a fresh server satisfies the invariant -/
 example : Inv (Conn.init { client := false }) := by
   unfold Inv
-  refine ⟨⟨⟨settingsOk_init_sl, settingsOk_init_sr, by decide, ?_⟩, ?_⟩, ?_⟩
+  refine ⟨⟨⟨settingsOk_init_sl, settingsOk_init_sr, by decide, ?_, ls32_init_sl⟩, ?_⟩, ?_⟩
   · intro r hr; simp [Conn.init] at hr
   · intro _ e he; simp [Conn.init] at he
   · simp [Conn.init, FrameBuffer.init, HbOk]
